@@ -80,9 +80,15 @@ def translate_quad():
             and len(first.orelse) == 1):
         raise TranslateError('to_meshtri: first statement is not the style branch')
     tnew, tx = first.body
-    if t2.src(tnew) != ('tnew = np.arange(np.max(self.t) + 1, np.max(self.t) + 1 + self.t.shape[1], '
-                        'dtype=np.int32)'):
+    # tnew = np.arange(<base>, <base> + self.t.shape[1], dtype=np.int32): where are the centre nodes numbered from?
+    v = tnew.value if isinstance(tnew, ast.Assign) and t2.src(tnew.targets[0]) == 'tnew' else None
+    if not (isinstance(v, ast.Call) and t2.src(v.func) == 'np.arange' and len(v.args) == 2
+            and [k.arg for k in v.keywords] == ['dtype'] and t2.src(v.args[1]) == t2.src(v.args[0]) + ' + self.t.shape[1]'):
         raise TranslateError('to_meshtri: tnew: ' + t2.src(tnew))
+    bases = {'self.doflocs.shape[1]': 'npts', 'self.p.shape[1]': 'npts', 'np.max(self.t) + 1': 'maxt1'}
+    if t2.src(v.args[0]) not in bases:
+        raise TranslateError('to_meshtri: first centre node number: ' + t2.src(v.args[0]))
+    base = bases[t2.src(v.args[0])]
     if not (isinstance(tx, ast.Assign) and t2.src(tx.targets[0]) == 't'):
         raise TranslateError('to_meshtri: t (style x)')
     split_x = []
@@ -122,7 +128,9 @@ def translate_quad():
     return (f'Definition gen_quad_split : mat nat := {nat_mat(split)}.\n'
             f'Definition gen_quad_split_x : mat nat := {nat_mat(split_x)}.   (* each followed by the centre node *)\n'
             f'Definition gen_quad_sub_offsets : list nat := {clist([cnat(x) for x in offs[1]])}.\n'
-            f'Definition gen_quad_sub_offsets_x : list nat := {clist([cnat(x) for x in offs[0]])}.')
+            f'Definition gen_quad_sub_offsets_x : list nat := {clist([cnat(x) for x in offs[0]])}.\n'
+            f'(* number of the first centre node of style x, given |p| and max(t) + 1 *)\n'
+            f'Definition gen_quad_x_base (npts maxt1 : nat) : nat := {base}.')
 
 
 def translate_tets():
@@ -226,10 +234,15 @@ ADD = ['cls = type(self)',
        'p = np.hstack((self.p.round(decimals=8), other.p.round(decimals=8)))',
        't = np.hstack((self.t, other.t + self.p.shape[1]))',
        'return cls(*self._remove_duplicate_nodes(p, t))']
-CARRY = ('if self.boundaries:\n    boundaries = {}\n    for k in self.boundaries:\n'
-         '        slots = enumerate(mesh.facets.T)\n'
-         '        boundaries[k] = np.array([next(dropwhile(lambda s: not np.array_equal(f, s[1]), slots))[0] '
-         'for f in self.facets.T[np.sort(self.boundaries[k])]], dtype=np.int32)')
+CARRY = ("if self.boundaries:\n    boundaries = {}\n    nv = p.shape[1]\n"
+         "    keys = mesh.facets[0].astype(np.int64) * nv + mesh.facets[1]\n"
+         "    for k, ixs in self.boundaries.items():\n        order = np.argsort(ixs, kind='stable')\n"
+         "        facets = self.facets[:, np.asarray(ixs)[order]]\n"
+         "        newf = np.searchsorted(keys, facets[0].astype(np.int64) * nv + facets[1]).astype(np.int32)\n"
+         "        if isinstance(ixs, OrientedBoundary):\n"
+         "            cells = self.f2t[ixs.ori[order], np.asarray(ixs)[order]]\n"
+         "            ori = mesh.f2t[0, newf] % nt != cells\n"
+         "            boundaries[k] = OrientedBoundary(newf, ori)\n        else:\n            boundaries[k] = newf")
 
 
 def translate_join():
@@ -257,10 +270,113 @@ Definition gen_dedupe_t (p : list key) (t : mat nat) : mat nat :=
 Definition gen_join_p (p1 p2 : list key) : list key := gen_dedupe_p (p1 ++ p2).                    (* hstack((self.p, other.p)) *)
 Definition gen_join_t (p1 p2 : list key) (t1 t2 : mat nat) : mat nat :=
   gen_dedupe_t (p1 ++ p2) (hstack2 t1 (map (map (fun v => v + length p1)) t2)).                  (* hstack((self.t, other.t + n1)) *)
-(* MeshQuad1.to_meshtri, boundaries: one enumerate(mesh.facets.T) iterator per name, consumed by successive next(dropwhile(...)) *)
-Definition gen_carry_boundary (old_facets new_facets : mat nat) (b : list nat) : option (list nat) :=
-  let slots := combine (seq 0 (length new_facets)) new_facets in
-  scan_all (map (fun k => nth k old_facets []) (sort_nat b)) slots.'''
+(* MeshQuad1.to_meshtri, boundaries: every tagged facet is looked up on its own among the sorted facets of the triangle mesh *)
+Definition gen_carry_boundary (nv : nat) (old_facets new_facets : mat nat) (ixs : list nat) : list nat :=
+  let keys := map (fun f => nth 0 f 0 * nv + nth 1 f 0) new_facets in                     (* mesh.facets[0] * nv + mesh.facets[1] *)
+  map (fun i => searchsorted keys (facet_key nv (nth i old_facets []))) (sort_nat ixs).     (* searchsorted(keys, key(facets[:, ixs[order]])) *)
+Definition gen_carry_oriented := lookup_oriented.   (* cells = f2t[ori[order], ixs[order]]; ori = mesh.f2t[0, newf] % nt != cells *)'''
+
+
+SIMPLEX = 'skfem/mesh/mesh_simplex.py'
+RDN = ['p, t = self._remove_duplicate_nodes(self.doflocs, self.t)',
+       'm = replace(self, doflocs=p, t=t, _boundaries=None)',
+       'if self._boundaries is None:\n    return m',
+       'newp = np.zeros(self.doflocs.shape[1], dtype=np.int64)',
+       'newp[self.t] = t',
+       'candidates = m.t2f[:, self.f2t[0]]',
+       'match = (self._sort_entities(m.facets)[:, candidates] == self._sort_entities(newp[self.facets])[:, None])'
+       '.all(axis=0)',
+       'newf = candidates[match.argmax(axis=0), np.arange(self.nfacets)]',
+       'boundaries = {}',
+       'for name, ixs in self._boundaries.items():\n    if isinstance(ixs, OrientedBoundary):\n'
+       '        ori = m.f2t[1, newf[ixs]] == self.f2t[ixs.ori, ixs]\n'
+       '        boundaries[name] = OrientedBoundary(newf[ixs], ori)\n    else:\n'
+       '        boundaries[name] = np.unique(newf[ixs])',
+       'return replace(m, _boundaries=boundaries)']
+ORIENTED = ['flip = np.nonzero(self.orientation() == -1)[0].astype(np.int32)', 't = self.t.copy()', 't0 = t[0, flip]',
+            't1 = t[1, flip]', 't[0, flip] = t1', 't[1, flip] = t0', 'return replace(self, t=t, sort_t=False)']
+TRACE = ['facets = self.normalize_facets(facets)', 'p, t, _ = self._reix(self.facets[:, facets])',
+         'return ((Mesh if mtype is None else mtype)(project(p) if project is not None else p, t), facets)']
+
+
+def translate_misc():
+    """remove_duplicate_nodes (boundary remapping), morphed, oriented, trace"""
+    tree = t2.parse(MESH)
+    rdn = [t2.src(s) for s in _body(t2.find_def(tree, 'remove_duplicate_nodes', 'Mesh'))]
+    if rdn != RDN:
+        raise TranslateError('remove_duplicate_nodes: ' + repr(rdn))
+    tr = [t2.src(s) for s in _body(t2.find_def(tree, 'trace', 'Mesh'))]
+    if tr != TRACE:
+        raise TranslateError('trace: ' + repr(tr))
+    ori = [t2.src(s) for s in _body(t2.find_def(t2.parse(SIMPLEX), 'oriented', 'MeshSimplex'))]
+    if ori != ORIENTED:
+        raise TranslateError('oriented: ' + repr(ori))
+    # morphed: which array do the coordinate functions see?
+    mo = _body(t2.find_def(tree, 'morphed', 'Mesh'))
+    if len(mo) != 3 or t2.src(mo[0]) != 'p = self.p.copy()' or t2.src(mo[2]) != 'return replace(self, doflocs=p)':
+        raise TranslateError('morphed: statements ' + repr([t2.src(x) for x in mo]))
+    loop = mo[1]
+    if not (isinstance(loop, ast.For) and t2.src(loop.target) == '(i, arg)' and t2.src(loop.iter) == 'enumerate(args)'
+            and not loop.orelse and len(loop.body) == 2 and t2.src(loop.body[0]) == 'if arg is None:\n    continue'):
+        raise TranslateError('morphed: loop ' + t2.src(loop))
+    st = loop.body[1]
+    if not (isinstance(st, ast.Assign) and t2.src(st.targets[0]) == 'p[i]' and isinstance(st.value, ast.Call)
+            and t2.src(st.value.func) == 'arg' and len(st.value.args) == 1 and not st.value.keywords):
+        raise TranslateError('morphed: store ' + t2.src(st))
+    seen = t2.src(st.value.args[0])
+    if seen == 'self.p':
+        step = 'morph_step p'
+    elif seen == 'p':
+        step = 'morph_step_seen'
+    else:
+        raise TranslateError('morphed: argument of the coordinate function: ' + seen)
+    return f'''(* Mesh.remove_duplicate_nodes, remapping of the named boundaries *)
+Definition gen_remap_newp (npts : nat) (t t' : mat nat) : list nat :=
+  scatter (concat t) (concat t') (repeat 0 npts).                                          (* newp = zeros; newp[self.t] = t *)
+Definition gen_remap_newf (canon : list nat -> list nat) (nslots : nat) (newp : list nat) (F F' t2f' : mat nat)
+    (f2t0 : list nat) (f : nat) : nat :=
+  let candidates s := nth (nth f f2t0 0) (nth s t2f' []) 0 in                               (* m.t2f[:, self.f2t[0]] *)
+  let matched s := nats_same (canon (nth (candidates s) F' [])) (canon (map (fun v => nth v newp 0) (nth f F []))) in
+  let s := first_true matched nslots 0 in                                                  (* match.argmax(axis=0) *)
+  candidates (if s <? nslots then s else 0).
+Definition gen_remap_tag := remap_tag.   (* np.unique(newf[ixs]) / OrientedBoundary(newf[ixs], m.f2t[1, newf[ixs]] == self.f2t[ixs.ori, ixs]) *)
+(* Mesh.morphed: p[i] = arg({seen}) *)
+Definition gen_morphed_rows {{R}} (p : list R) (args : list (option (list R -> R))) : list R :=
+  fst (fold_left ({step}) args (p, 0)).
+(* MeshSimplex.oriented *)
+Definition gen_oriented_t (flip : list bool) (t : mat nat) : mat nat := swap_rows01 flip t.
+(* Mesh.trace: self._reix(self.facets[:, facets]) *)
+Definition gen_trace_ix (Frows : mat nat) (facets : list nat) : mat nat := take_cols 0 Frows facets.'''
+
+
+def translate_matmul():
+    """Mesh.__matmul__: the vertex offset of the j-th mesh of the list"""
+    fn = t2.find_def(t2.parse(MESH), '__matmul__', 'Mesh')
+    body = _body(fn)
+    blk = [s for s in body if isinstance(s, ast.If) and t2.src(s.test) == 'isinstance(other, list)']
+    blk = t2.only(blk, '__matmul__: list branch')
+    srcs = [t2.src(x) for x in blk.body]
+    if srcs[0] != 'p = np.hstack((self.p,) + tuple([mesh.p for mesh in other]))' or not isinstance(blk.body[-1], ast.Return):
+        raise TranslateError('__matmul__: stacking of the points: ' + srcs[0])
+    ret = blk.body[-1].value
+    if not (isinstance(ret, ast.List) and len(ret.elts) == 2 and isinstance(ret.elts[1], ast.Starred)
+            and t2.src(ret.elts[0]) == 'cls(p, self._squeeze_if(ixb[self.t]))'):
+        raise TranslateError('__matmul__: return: ' + t2.src(ret))
+    lc = ret.elts[1].value
+    if not (isinstance(lc, ast.ListComp) and t2.src(lc.generators[0].target) == '(i, m)'
+            and t2.src(lc.generators[0].iter) == 'enumerate(other)'):
+        raise TranslateError('__matmul__: comprehension: ' + t2.src(lc))
+    e = t2.src(lc.elt)
+    if e == 'type(m)(p, self._squeeze_if(ixb[m.t + offsets[i]]))':
+        if 'offsets = np.cumsum([self.p.shape[1]] + [mesh.p.shape[1] for mesh in other])' not in srcs:
+            raise TranslateError('__matmul__: offsets: ' + repr(srcs))
+        off = 'list_sum (firstn j lens)'          # offsets[j - 1] = n_0 + ... + n_{j-1} for the j-th mesh overall
+    elif e == 'type(m)(p, self._squeeze_if(ixb[m.t + self.p.shape[1]]))':
+        off = 'nth 0 lens 0'
+    else:
+        raise TranslateError('__matmul__: element: ' + e)
+    return ('(* Mesh.__matmul__: number added to the vertices of the j-th mesh (j >= 1) of [self] + other; lens = point counts *)\n'
+            f'Definition gen_matmul_offset (lens : list nat) (j : nat) : nat := {off}.')
 
 
 HEADER = '''(* GENERATED by vlib/c18_translate.py from skfem/mesh/mesh.py, mesh_quad_1.py, mesh_hex_1.py, mesh_wedge_1.py,
@@ -276,7 +392,9 @@ def translate():
     errors, parts = [], [HEADER]
     for name, fn in (('mesh_quad_1.py: to_meshtri', translate_quad), ('mesh_hex_1.py / mesh_wedge_1.py: to_meshtet, refdom', translate_tets),
                      ('mesh.py: _reix, restrict, remove_elements, remove_unused_nodes', translate_restrict),
-                     ('mesh.py: _remove_duplicate_nodes, __add__; mesh_quad_1.py: boundary carry-over', translate_join)):
+                     ('mesh.py: _remove_duplicate_nodes, __add__; mesh_quad_1.py: boundary carry-over', translate_join),
+                     ('mesh.py: remove_duplicate_nodes, morphed, trace; mesh_simplex.py: oriented', translate_misc),
+                     ('mesh.py: __matmul__', translate_matmul)):
         try:
             parts.append(fn())
         except TranslateError as e:
